@@ -50,9 +50,9 @@ MIRI_GROUPS_EXTRA = [  # thorough only, fewer seeds
 ]
 
 TIERS = {
-    "quick": dict(native_threads=12, native_iters=100, miri_seeds=4, miri_procs_per_group=1, miri_extra_seeds=0,
+    "quick": dict(native_timeout=600, tsan_timeout=300, native_threads=12, native_iters=100, miri_seeds=4, miri_procs_per_group=1, miri_extra_seeds=0,
                   miri_threads=3, miri_iters=1, tsan_runs=0, tsan_threads=8, tsan_iters=10),
-    "thorough": dict(native_threads=16, native_iters=1500, miri_seeds=64, miri_procs_per_group=4, miri_extra_seeds=8,
+    "thorough": dict(native_timeout=3600, tsan_timeout=300, native_threads=16, native_iters=1000, miri_seeds=64, miri_procs_per_group=4, miri_extra_seeds=8,
                      miri_threads=3, miri_iters=1, tsan_runs=5, tsan_threads=8, tsan_iters=10),
 }
 
@@ -112,7 +112,7 @@ def prepare_crate():
     return crate, prefix
 
 
-ROW_RE = re.compile(r'row!\(\s*rig,\s*"([^"]+)"')
+ROW_RE = re.compile(r'row!\(\s*rig,\s*"([A-Za-z][\w/.-]*)"')
 
 
 def table_rows_from_source(crate):
@@ -273,14 +273,17 @@ def stage_native(st, binary, cfg, only=None):
     cmd = [binary, "--threads", str(cfg["native_threads"]), "--iters", str(cfg["native_iters"]), "--samples"]
     if only:
         cmd += ["--only", ",".join(only)]
-    rc, out, dt = run(cmd, ROOT, timeout=3 * 3600)
+    rc, out, dt = run(cmd, ROOT, timeout=cfg["native_timeout"])
     st.counters["native_run_s"] = round(dt, 1)
     shipped, mismatches, samples, done = parse_run_output(out)
     for l in mismatches[:50]:
         m = re.match(r"MISMATCH (\S+) .*?kind=(\S+)", l)
         row, kind = (m.group(1), m.group(2)) if m else ("?", "?")
         st.violate("native-mismatch", f"{row} {kind}", {"stage": "native", "line": l[:1500]})
-    if done is None or rc not in (0, 3):
+    if rc == -999:
+        st.violate("native-crash", "hang: no progress until the watchdog fired",
+                   {"stage": "native", "timeout_s": cfg["native_timeout"], "rows_completed": len(shipped), "output_tail": out.splitlines()[-10:]})
+    elif done is None or rc not in (0, 3):
         tail = [rel_repo(l) for l in out.splitlines() if not l.startswith(("SHIPPED", "SAMPLE"))][-40:]
         where = re.search(r"panicked at ([^\n]+)", out)
         running = re.search(r"thread '[A-DW]\d*:([^']+)'", out)
@@ -435,7 +438,7 @@ def stage_tsan(st, crate, prefix, cfg):
     t0 = time.time()
     for i in range(cfg["tsan_runs"]):
         rc, out, dt = run([binary, "--threads", str(cfg["tsan_threads"]), "--iters", str(cfg["tsan_iters"])], ROOT,
-                          {"TSAN_OPTIONS": "halt_on_error=0 second_deadlock_stack=1 history_size=4"}, timeout=3600)
+                          {"TSAN_OPTIONS": "halt_on_error=0 history_size=4"}, timeout=cfg["tsan_timeout"])
         runs += 1
         shipped, mismatches, _, done = parse_run_output(out)
         if done:
@@ -454,6 +457,10 @@ def stage_tsan(st, crate, prefix, cfg):
                        {"stage": "tsan", "run": i, "report": [rel_repo(l) for l in rep[:80]]})
         if not reps and (done is None or rc not in (0, 3)):
             st.inconc(f"tsan:run{i}", f"exit {rc} without a data-race report: " + rel_repo(" | ".join(out.splitlines()[-4:]))[:400])
+        if rc == -999 and reps:
+            # a racing program may corrupt its heap and spin; the reports gathered so far are the verdict
+            st.notes.append(f"tsan run {i} was killed after {cfg['tsan_timeout']} s (after reporting {len(reps)} races)")
+            break
     st.counters["tsan_run_s"] = round(time.time() - t0, 1)
     return runs, renders
 
